@@ -15,7 +15,9 @@ REPEATED_CONTEXT_CORPUS = ['<3<3', 'xo<3xo<3', 'Mr.Mr.Big', 'Dr.Jekyll&Dr.Hyde',
 # several detectors firing in one password, with sections already labelled before and behind the one a detector splits (the splice
 # of a detector's result into the section list)
 DETECTOR_ORDER_CORPUS = ['bob@aol.com#1qaz', 'Bob@AOL.com2019!1qaz', '1qazbob@aol.com#', 'www.google.com/1qaz2wsx', '1qaz2wsxwww.google.com',
-                         'x1999y2000zqwer', 'qwer#bob@aol.com#asdf', 'a@b.com12qwerty12', '1qaz#1x<3qwer', 'zxcvwww.a.org!asdf1999']
+                         'x1999y2000zqwer', 'qwer#bob@aol.com#asdf', 'a@b.com12qwerty12', '1qaz#1x<3qwer', 'zxcvwww.a.org!asdf1999',
+                         # runs of adjacent keys of one character class only (not walks: they stay other / digit / letter strings)
+                         'pass!@#$', '()_+x', '$%^&*1', 'qwerty', '12345', 'x!@#$%y', '<>?:9']
 FRESH_LENGTHS_CORPUS = ['sun12tiger345', 'ab!cdef!!', 'hello', 'sun', 'tiger', '12', '345', 'xy7', 'Sun12', 'TIGER345']
 YEARS = ['1999', '2000', '2012', '1987', '2024', '1900', '2099', '19', '20', '199', '20123', '12019']
 TLDS = ['.com', '.org', '.net', '.de', '.ru', '.uk', '.nl.se', '.mil']
